@@ -597,6 +597,369 @@ func decodeCase(w *world, ds *replication.Datasource, rng *rand.Rand, kind int) 
 	return c
 }
 
+// ---------------------------------------------------------------- byte-level decode cases
+//
+//	4 DECODEB : kind cur n body(bytes) wf iseq iy imo id ih imi is ins
+//	          | outcome(0 state, 1 error, 2 panic) seq y mo d h mi s ns txnMax txnMaxQueried
+//	  wf = 1: the body is a state file whose intended content (iseq, time fields) the harness
+//	  knows and which must be read as such; wf = 0: damaged file, only the model is compared.
+
+type tmF struct{ y, mo, d, h, mi, s, ns int }
+
+func daysIn(m, y int) int {
+	switch m {
+	case 2:
+		if y%4 == 0 && (y%100 != 0 || y%400 == 0) {
+			return 29
+		}
+		return 28
+	case 4, 6, 9, 11:
+		return 30
+	}
+	return 31
+}
+
+func genTm(rng *rand.Rand, ns bool) tmF {
+	t := tmF{y: 2004 + rng.Intn(40), mo: 1 + rng.Intn(12), h: rng.Intn(24), mi: rng.Intn(60), s: rng.Intn(60)}
+	if rng.Intn(6) == 0 {
+		t.y = []int{0, 1, 1970, 2000, 2100, 9999, 1900, 2024}[rng.Intn(8)]
+	}
+	if rng.Intn(5) == 0 {
+		t.mo = 2
+	}
+	t.d = 1 + rng.Intn(daysIn(t.mo, t.y))
+	if rng.Intn(4) == 0 {
+		t.d = daysIn(t.mo, t.y)
+	}
+	if ns {
+		t.ns = rng.Intn(1000000000)
+		if rng.Intn(4) == 0 {
+			t.ns = []int{0, 1, 999999999, 500000000, 120000000}[rng.Intn(5)]
+		}
+	}
+	return t
+}
+
+// renderTime writes the fields without going through package time.
+func renderTime(k int, t tmF) string {
+	switch k {
+	case 0:
+		return fmt.Sprintf("%04d-%02d-%02d %02d:%02d:%02d.%09d Z", t.y, t.mo, t.d, t.h, t.mi, t.s, t.ns)
+	case 1:
+		return fmt.Sprintf("%04d-%02d-%02d %02d:%02d:%02d.%09d +00:00", t.y, t.mo, t.d, t.h, t.mi, t.s, t.ns)
+	}
+	return fmt.Sprintf("%04d-%02d-%02d", t.y, t.mo, t.d) + fmt.Sprintf("T%02d\\:%02d\\:%02d", t.h, t.mi, t.s) + "Z"
+}
+
+type decB struct {
+	kind  int
+	body  string
+	wf    bool
+	seq   uint64 // intended sequence number inside the file
+	t     tmF
+	class string
+}
+
+func mutateString(rng *rand.Rand, v string, alphabet string) string {
+	b := []byte(v)
+	switch rng.Intn(5) {
+	case 0:
+		if len(b) > 0 {
+			i := rng.Intn(len(b))
+			b = append(b[:i], b[i+1:]...)
+		}
+	case 1:
+		i := rng.Intn(len(b) + 1)
+		b = append(b[:i], append([]byte{alphabet[rng.Intn(len(alphabet))]}, b[i:]...)...)
+	case 2:
+		if len(b) > 0 {
+			b[rng.Intn(len(b))] = alphabet[rng.Intn(len(alphabet))]
+		}
+	case 3:
+		if len(b) > 1 {
+			b = b[:rng.Intn(len(b))]
+		}
+	default:
+		if len(b) > 1 {
+			i, j := rng.Intn(len(b)), rng.Intn(len(b))
+			b[i], b[j] = b[j], b[i]
+		}
+	}
+	return string(b)
+}
+
+func badTime(rng *rand.Rand, k int, t tmF) string {
+	switch rng.Intn(12) {
+	case 0:
+		t.mo = 13
+	case 1:
+		t.mo, t.d = 2, 30
+	case 2:
+		t.mo, t.d, t.y = 2, 29, 2023
+	case 3:
+		t.h = 24
+	case 4:
+		t.s = 60
+	case 5:
+		t.d = 0
+	case 6:
+		t.mo, t.d = 4, 31
+	case 7:
+		return renderTime(k, t) + "x"
+	case 8:
+		// unescaped colons in the interval format / escaped ones in the changeset format
+		return renderTime(2-k%2*2, t)
+	case 9:
+		if k == 2 {
+			return fmt.Sprintf("%04d-%02d-%02dT%d\\:%02d\\:%02d.25Z", t.y, t.mo, t.d, t.h%10, t.mi, t.s) // 1-digit hour, fraction: accepted by time.Parse
+		}
+		return fmt.Sprintf("%04d-%02d-%02d   %d:%02d:%02d,1234567891234   Z", t.y, t.mo, t.d, t.h%10, t.mi, t.s)
+	case 10:
+		if k == 2 {
+			return fmt.Sprintf("%04d-%02d-%02dT%02d\\:%02d\\:%02d", t.y, t.mo, t.d, t.h, t.mi, t.s) // Z missing
+		}
+		return fmt.Sprintf("%04d-%02d-%02d %02d:%02d:%02d +01:00", t.y, t.mo, t.d, t.h, t.mi, t.s)
+	default:
+		return mutateString(rng, renderTime(k, t), "0123456789:-TZ\\ .,+")
+	}
+	return renderTime(k, t)
+}
+
+func genDecB(rng *rand.Rand, kind int) decB {
+	d := decB{kind: kind, wf: true, seq: uint64(1 + rng.Intn(4000000))}
+	ws := []string{"", " ", "  ", "\t", " \t "}
+	pick := func() string {
+		if rng.Intn(3) == 0 {
+			return ws[rng.Intn(len(ws))]
+		}
+		return ""
+	}
+	if kind != 3 {
+		d.t = genTm(rng, false)
+		type kv struct{ k, v string }
+		lines := []kv{{"#", ""}, {"txnMaxQueried", fmt.Sprint(rng.Intn(1 << 30))}, {"sequenceNumber", fmt.Sprint(d.seq)},
+			{"timestamp", renderTime(2, d.t)}, {"txnReadyList", ""}, {"txnMax", fmt.Sprint(rng.Intn(1 << 30))}, {"txnActiveList", "836439008,836439010"}}
+		d.class = "decodeb/interval"
+		r := rng.Intn(10)
+		switch {
+		case r == 0:
+			rng.Shuffle(len(lines), func(i, j int) { lines[i], lines[j] = lines[j], lines[i] })
+			d.class += "/reordered"
+		case r == 1:
+			lines = append(lines, kv{"someNewKey", "x=y=z"}, kv{"", ""}, kv{"another", "1"})
+			d.class += "/unknown-keys"
+		case r == 2:
+			// a repeated key: the last one counts
+			lines = append([]kv{{"sequenceNumber", fmt.Sprint(d.seq + 7)}, {"timestamp", renderTime(2, genTm(rng, false))}}, lines...)
+			d.class += "/repeated"
+		}
+		eol := "\n"
+		if rng.Intn(5) == 0 {
+			eol = "\r\n"
+			d.class += "/crlf"
+		}
+		// damage
+		dmg := rng.Intn(3) == 0
+		if dmg {
+			d.wf = false
+			d.class += "/damaged"
+			i := rng.Intn(len(lines))
+			switch rng.Intn(9) {
+			case 0:
+				lines = append(lines[:i], lines[i+1:]...) // a line is missing
+			case 1:
+				for j := range lines {
+					if lines[j].k == "sequenceNumber" {
+						lines[j].v = []string{"", "abc", "-5", "+7", "12x", "99999999999999999999", "9223372036854775807", "9223372036854775808", "1_000", "0x10", " ", "1 2"}[rng.Intn(12)]
+					}
+				}
+			case 2:
+				for j := range lines {
+					if lines[j].k == "timestamp" {
+						lines[j].v = badTime(rng, 2, d.t)
+					}
+				}
+			case 3:
+				for j := range lines {
+					if lines[j].k == "txnMax" || lines[j].k == "txnMaxQueried" {
+						lines[j].v = mutateString(rng, lines[j].v, "0123456789-+ x")
+					}
+				}
+			case 4:
+				lines[i].k = " " + lines[i].k // the key is not recognised any more
+			case 5:
+				lines[i].k = lines[i].k + " "
+			case 6:
+				lines[i].v = lines[i].v + "=" + lines[i].v
+			case 7:
+				lines[i].k, lines[i].v = lines[i].k+lines[i].v, "\x00nosep" // no '=' on the line
+			default:
+				lines[i].v = mutateString(rng, lines[i].v, "0123456789=:\\ TZ-")
+			}
+		}
+		var sb strings.Builder
+		for _, l := range lines {
+			switch {
+			case l.k == "#":
+				sb.WriteString("#Sat Jul 16 06:14:03 UTC 2016")
+			case l.v == "\x00nosep":
+				sb.WriteString(l.k)
+			default:
+				sb.WriteString(l.k + "=" + pick() + l.v + pick())
+			}
+			sb.WriteString(eol)
+		}
+		d.body = sb.String()
+		if rng.Intn(6) == 0 {
+			d.body = strings.TrimSuffix(d.body, eol)
+		}
+		if !dmg && r == 2 {
+			// intended values are those of the later lines (already in d.seq / d.t)
+		}
+		return d
+	}
+	// changesets
+	k := rng.Intn(2)
+	d.t = genTm(rng, true)
+	d.class = "decodeb/changeset"
+	l0, l1, l2 := "---", "last_run: "+pick()+renderTime(k, d.t)+pick(), "sequence: "+pick()+fmt.Sprint(d.seq)+pick()
+	extra := ""
+	if rng.Intn(5) == 0 {
+		extra = "other: 1\n"
+	}
+	eol := "\n"
+	if rng.Intn(5) == 0 {
+		eol = "\r\n"
+		d.class += "/crlf"
+	}
+	if rng.Intn(3) == 0 {
+		d.wf = false
+		d.class += "/damaged"
+		switch rng.Intn(9) {
+		case 0:
+			l1 = "last_run: " + badTime(rng, k, d.t)
+		case 1:
+			l2 = "sequence: " + []string{"", "abc", "-5", "+7", "12x", "18446744073709551615", "18446744073709551616", "1_000", " ", "1 2"}[rng.Intn(10)]
+		case 2:
+			l2 = "sequence " + fmt.Sprint(d.seq) // no ':'
+		case 3:
+			d.body = l0 + eol + l1 // only two lines
+			return d
+		case 4:
+			d.body = l1 + eol + l2 + eol // the first line is missing: everything shifts
+			return d
+		case 5:
+			l1 = "last_run " + renderTime(k, d.t)[:10]
+		case 6:
+			l1, l2 = l2, l1
+		case 7:
+			d.body = ""
+			return d
+		default:
+			l1 = mutateString(rng, l1, "0123456789:- Z+.")
+		}
+	}
+	d.body = l0 + eol + l1 + eol + l2 + eol + extra
+	return d
+}
+
+func decodeBCase(w *world, ds *replication.Datasource, rng *rand.Rand, d decB) *wire.Case {
+	n := uint64(2 + rng.Intn(3000000))
+	cur := rng.Intn(3) == 0
+	if d.wf && rng.Intn(2) == 0 {
+		// the number inside agrees with the file name as on the planet server
+		if d.kind == 3 {
+			n = d.seq + 1
+		} else {
+			n = d.seq
+		}
+	}
+	w.reset(d.kind, 10)
+	if cur {
+		w.cur = []byte(d.body)
+	} else {
+		w.files[n] = []byte(d.body)
+	}
+	if len(d.body) == 0 {
+		// an empty body is a 404 for the stand-in server; serve one byte less than nothing is
+		// not possible, so mark it explicitly
+		if cur {
+			w.cur = []byte{}
+		} else {
+			w.files[n] = []byte{}
+		}
+	}
+	outcome := int64(0)
+	var st *replication.State
+	var err error
+	func() {
+		defer func() {
+			if r := recover(); r != nil {
+				outcome = 2
+				err = fmt.Errorf("panic: %v", r)
+			}
+		}()
+		ctx, cancel := context.WithTimeout(context.Background(), 10*time.Second)
+		defer cancel()
+		switch {
+		case cur && d.kind == 0:
+			_, st, err = ds.CurrentMinuteState(ctx)
+		case cur && d.kind == 1:
+			_, st, err = ds.CurrentHourState(ctx)
+		case cur && d.kind == 2:
+			_, st, err = ds.CurrentDayState(ctx)
+		case cur:
+			_, st, err = ds.CurrentChangesetState(ctx)
+		case d.kind == 0:
+			st, err = ds.MinuteState(ctx, replication.MinuteSeqNum(n))
+		case d.kind == 1:
+			st, err = ds.HourState(ctx, replication.HourSeqNum(n))
+		case d.kind == 2:
+			st, err = ds.DayState(ctx, replication.DaySeqNum(n))
+		default:
+			st, err = ds.ChangesetState(ctx, replication.ChangesetSeqNum(n))
+		}
+	}()
+	if outcome == 0 && err != nil {
+		outcome = 1
+	}
+	c := &wire.Case{Class: d.class}
+	c.Int(4).Int(int64(d.kind)).Bool(cur).Int(int64(n)).Str(d.body).Bool(d.wf).Int(int64(d.seq))
+	c.Int(int64(d.t.y)).Int(int64(d.t.mo)).Int(int64(d.t.d)).Int(int64(d.t.h)).Int(int64(d.t.mi)).Int(int64(d.t.s)).Int(int64(d.t.ns))
+	var o [10]int64
+	es := ""
+	if err != nil {
+		es = err.Error()
+	}
+	if outcome == 0 {
+		t := st.Timestamp.UTC()
+		o = [10]int64{int64(st.SeqNum), int64(t.Year()), int64(t.Month()), int64(t.Day()), int64(t.Hour()), int64(t.Minute()), int64(t.Second()), int64(t.Nanosecond()), int64(st.TxnMax), int64(st.TxnMaxQueried)}
+	}
+	c.Int(outcome)
+	for _, v := range o {
+		c.Int(v)
+	}
+	c.Desc = map[string]interface{}{"kind": dirs[d.kind], "current": cur, "file": n, "body": d.body, "well_formed": d.wf,
+		"intended_seq_inside": d.seq, "intended_time": fmt.Sprint(d.t), "outcome": []string{"state", "error", "panic"}[outcome], "err": es, "observed": o}
+	if d.wf {
+		want := d.seq
+		if d.kind == 3 {
+			if cur {
+				want = d.seq + 1
+			} else {
+				want = n
+			}
+		}
+		switch {
+		case outcome != 0:
+			c.OracleFail = fmt.Sprintf("well-formed state file not read: %s", es)
+		case uint64(o[0]) != want || o[1] != int64(d.t.y) || o[2] != int64(d.t.mo) || o[3] != int64(d.t.d) || o[4] != int64(d.t.h) || o[5] != int64(d.t.mi) || o[6] != int64(d.t.s) || o[7] != int64(d.t.ns):
+			c.OracleFail = fmt.Sprintf("state file with sequence %d and time %v read as %v", want, d.t, o)
+		}
+	}
+	return c
+}
+
 func main() {
 	a := wire.ParseArgs()
 	rng := wire.Rng(a.Seed)
@@ -619,12 +982,13 @@ func main() {
 	}
 	min := genBase
 
-	ndirs, nq, nbig, npath, ndecode := 260, 4, 6, 120, 120
+	ndirs, nq, nbig, npath, ndecode, ndecodeb := 260, 4, 6, 120, 120, 500
 	if a.Tier == "thorough" {
-		ndirs, nq, nbig, npath, ndecode = 6000, 6, 300, 2000, 2000
+		ndirs, nq, nbig, npath, ndecode, ndecodeb = 6000, 6, 300, 2000, 2000, 12000
 	}
 	ndirs = int(float64(ndirs) * a.Scale)
 	nbig = int(float64(nbig) * a.Scale)
+	ndecodeb = int(float64(ndecodeb) * a.Scale)
 
 	var searchIdx []int
 	add := func(d *dirSpec, t int64) {
@@ -682,6 +1046,13 @@ func main() {
 	for i := 0; i < ndecode; i++ {
 		decIdx = append(decIdx, wr.Add(decodeCase(world, ds, rng, rng.Intn(4))))
 	}
+	var decBIdx []int
+	for i := 0; i < ndecodeb; i++ {
+		d := genDecB(rng, rng.Intn(4))
+		c := decodeBCase(world, ds, rng, d)
+		decBIdx = append(decBIdx, wr.Add(c))
+		wr.Count(fmt.Sprintf("decodeb-outcome:%d", c.Toks[len(c.Toks)-11]>>1))
+	}
 
 	// canaries: one per observable class
 	plant := func(i int, f func(c *wire.Case)) {
@@ -708,6 +1079,13 @@ func main() {
 	plant(okSearch(11), func(c *wire.Case) { corruptSeq(c) })                               // returned sequence number + 1
 	plant(pathIdx[5], func(c *wire.Case) { c.Toks[len(c.Toks)-3] = uint64('1') })           // a digit of the data path
 	plant(decIdx[0], func(c *wire.Case) { c.Toks[len(c.Toks)-1] += 2 })                     // decoded stamp + 1ns
+	for _, i := range decBIdx { // a well-formed byte-level case read as a state: the decoded second + 1
+		if c := wr.Cases[i]; c.OracleFail == "" && c.Toks[len(c.Toks)-11] == 0 {
+			plant(i, func(c *wire.Case) { c.Toks[len(c.Toks)-4] += 2 })
+			plant(i, func(c *wire.Case) { c.Toks[len(c.Toks)-11] = 2 }) // "error" instead of a state
+			break
+		}
+	}
 
 	if err := wr.Flush(a.Out, "Verif.C19.Check", 400); err != nil {
 		fmt.Fprintln(os.Stderr, err)
